@@ -429,7 +429,8 @@ def expected_failure(case):
 CAPACITY_BYTES = {"L": 2953, "M": 2331, "Q": 1663, "H": 1273}
 
 
-def run_case(case, ref=None):
+def run_case(case, ref=None, executor=None):
+    executor = executor or simulate_process
     log = EventLog(case.get("seed", 0))
     stats = Stats()
     violations = []
@@ -447,7 +448,7 @@ def run_case(case, ref=None):
              f"{FACTORIES.get(f, ('unknown',))[0]}|drawer="
              f"{'none' if case.get('drawer') is None else 'known' if case['drawer'] in DRAWERS else 'unknown'}"
              f"|ascii={bool(case.get('ascii'))}")
-    res = simulate_process(case, dest)
+    res = executor(case, dest)
     stats.inc("processes")
     stats.inc("dest." + dest)
     stats.inc("source." + case["source"])
@@ -579,7 +580,7 @@ def run_case(case, ref=None):
     other_is_ascii = other != "output" and f is None and case.get("ascii")
     if not violations and image_ok and got_kind == kind and not other_is_ascii \
             and case.get("pair", True):
-        res2 = simulate_process(case, other)
+        res2 = executor(case, other)
         nproc = 2
         stats.inc("processes")
         stats.inc("probe.output_vs_stdout_pairs")
@@ -806,15 +807,63 @@ def generate(rng, tier, opts=None):
 
 def worker_init(prop, tier, opts):
     core.import_target()
-    return {"fs": ForkServer(None)}
+    return {"fs": ForkServer(None), "mode": "sim", "tmp": None}
 
 
 def worker_fini(ctx):
-    pass
+    if ctx.get("tmp"):
+        import shutil
+        shutil.rmtree(ctx["tmp"], ignore_errors=True)
+
+
+def _real_eligible(case):
+    """Can a real OS process reproduce this case's environment?  Not when the
+    *delivery* of stdin is part of the simulated environment."""
+    if case.get("stdin_tty"):
+        return False
+    if case["source"] == "stdin" and (case.get("chunks") not in (None, [1 << 30]) or
+                                      case.get("stdin_bufsize", 8192) != 8192):
+        return False
+    return True
+
+
+def _run_real(ctx, case):
+    import tempfile
+    if not ctx.get("tmp"):
+        ctx["tmp"] = tempfile.mkdtemp(prefix="verif_cli_")
+    return run_case(dict(case, max_write=None), executor=_real_executor(ctx["tmp"]))
 
 
 def execute(ctx, case, log):
-    res = ctx["fs"].run(run_case, case, timeout=200.0)
+    """Simulated process first.  A violation seen in simulation is re-judged at
+    once with a real OS process (when a real process can reproduce the case's
+    environment); if it does not show there, the command reaches its environment
+    past one of the simulated seams, and this worker judges with real processes
+    from then on (slower, same oracle)."""
+    if ctx["mode"] == "sim":
+        res = ctx["fs"].run(run_case, case, timeout=200.0)
+        if res["violations"]:
+            probe = case
+            if not _real_eligible(case):
+                # the same invocation with plain delivery of stdin: does the violation
+                # depend on the simulated delivery at all?
+                probe = dict(case, chunks=[1 << 30], stdin_bufsize=8192, stdin_tty=False)
+                pres = ctx["fs"].run(run_case, probe, timeout=200.0)
+                if not ({v["class"] for v in res["violations"]} &
+                        {v["class"] for v in pres["violations"]}):
+                    probe = None          # delivery-specific: only the simulation can judge
+            if probe is not None:
+                real = _run_real(ctx, probe)
+                if not ({v["class"] for v in res["violations"]} &
+                        {v["class"] for v in real["violations"]}):
+                    ctx["mode"] = "real"
+                    res = real if probe is case else \
+                        {"violations": [], "stats": Stats(), "log": [""], "steps": 0}
+                    res["stats"].inc("probe.seam_bypass_noticed")
+    else:
+        res = _run_real(ctx, case) if _real_eligible(case) else \
+            {"violations": [], "stats": Stats(), "log": [""], "steps": 0}
+        res["stats"].inc("probe.judged_with_real_process")
     log.lines.extend(res["log"][1:])
     return [Violation.from_json(v) for v in res["violations"]], res["stats"], res["steps"]
 
@@ -868,9 +917,9 @@ def minimise(ctx, case, violation):
     return case
 
 
-def _real_process(case, dest, tmpdir):
+def _real_process(case, dest, tmpdir, keep_file=False):
     """The same invocation as a real OS process with real pipes / a real pty /
-    a real file.  -> (status, stdout bytes, file bytes or None)"""
+    a real file.  -> (status, stdout bytes, file bytes or None[, stderr text])"""
     import subprocess
     argv = build_argv(case, dest)
     out_path = os.path.join(tmpdir, "qr.img")
@@ -898,6 +947,7 @@ def _real_process(case, dest, tmpdir):
                 break
             chunks.append(b)
         p.wait(timeout=120)
+        err = p.stderr.read().decode("utf-8", "replace")
         p.stderr.close()
         os.close(master)
         out = b"".join(chunks).replace(b"\r\n", b"\n")
@@ -905,12 +955,74 @@ def _real_process(case, dest, tmpdir):
         p = subprocess.run(cmd, input=data if case["source"] == "stdin" else b"",
                            capture_output=True, env=env, cwd=tmpdir, timeout=120)
         out = p.stdout
+        err = p.stderr.decode("utf-8", "replace")
+    if keep_file:
+        return p.returncode, out, None, err
     fbytes = None
     if os.path.exists(out_path):
         with open(out_path, "rb") as f:
             fbytes = f.read()
         os.unlink(out_path)
     return p.returncode, out, fbytes
+
+
+def _real_executor(tmpdir):
+    """An executor with the interface of simulate_process that runs the real
+    command as an OS process (used only to confirm a violation found in
+    simulation, so that a refactoring which by-passes one of the simulated
+    seams can never be reported as a violation)."""
+    def run(case, dest):
+        out_path = os.path.join(tmpdir, "qr.img")
+        initial = None
+        if case.get("preexisting"):
+            initial = b"OLD CONTENT " * case["preexisting"]
+            with open(out_path, "wb") as f:
+                f.write(initial)
+            os.utime(out_path, (1_000_000_000, 1_000_000_000))
+        elif os.path.exists(out_path):
+            os.unlink(out_path)
+        st, out, fb, err = _real_process(case, dest, tmpdir, keep_file=True)
+        touched = False
+        fbytes = None
+        if os.path.exists(out_path):
+            with open(out_path, "rb") as f:
+                fbytes = f.read()
+            touched = initial is None or os.stat(out_path).st_mtime != 1_000_000_000 \
+                or fbytes != initial
+            os.unlink(out_path)
+        if not touched:
+            fbytes = None
+        last = err.strip().splitlines()[-1] if err.strip() and st == 1 else None
+        return {"status": st, "exc": last, "stdout": out, "stderr": err, "file": fbytes,
+                "opens": [("open", OUT_PATH, "wb")] if touched else [],
+                "stdin_consumed": len(bytes.fromhex(case["data"]))
+                if case["source"] == "stdin" else 0,
+                "stdin_eof": True, "short_reads": 0, "text_reads": 0, "short_writes": 0,
+                "argv": build_argv(case, dest), "isatty_queries": []}
+    return run
+
+
+def confirm(ctx, case, violation):
+    """Re-judge the (minimised) violating case with a *real* process.  -> None
+    when the violation stands, else a description of the disagreement."""
+    import tempfile
+    if case.get("stdin_tty"):
+        return None      # a real terminal would interpret control bytes; trust the simulation
+    with tempfile.TemporaryDirectory(prefix="verif_cli_") as td:
+        try:
+            res = run_case(dict(case, max_write=None), executor=_real_executor(td))
+        except Exception as e:  # noqa
+            return f"real-process confirmation failed to run: {e!r}"
+    classes = {v["class"] for v in res["violations"]}
+    if violation.cls in classes:
+        return None
+    if case["source"] == "stdin" and (case.get("chunks") not in (None, [1 << 30]) or
+                                      case.get("stdin_bufsize", 8192) != 8192):
+        return None      # short reads / tiny reader buffers cannot be forced on a real pipe:
+        #                  the simulated delivery decides
+    return (f"the simulated process shows {violation.cls} but a real `python -m "
+            f"qrcode.console_scripts` process with the same argv/stdin/destination does not "
+            f"(real run: {sorted(classes) or 'no violation'}); a seam is being by-passed")
 
 
 def _sim_only(case, ref=None):
